@@ -232,6 +232,18 @@ def generate(tier, rng):
             if n >= 4 and rng.random() > 0.15:
                 continue
             yield _case('bresp_build', resps=list(combo), error=None, reg=REG, cls=_cls_json(E.JsonRpcError))
+    # the supplied base class must reach the *elements* of a batch (unregistered codes deserialise to it)
+    for n in (1, 2, 3):
+        for combo in itertools.product(bresp_elems + [_resp_spec(5, error=_err_spec(E.JsonRpcError, 777, 'unregistered'))], repeat=n):
+            if n >= 2 and not thorough and rng.random() > (0.5 if n == 2 else 0.1):
+                continue
+            for ecls in (U.ClientBaseError, U.UserError2001):
+                yield _case('bresp_build', resps=list(combo), error=None, reg=REG, cls=_cls_json(ecls))
+    for n in (1, 2):
+        for combo in itertools.product(resp_elems, repeat=n):
+            if n == 2 and not thorough and rng.random() > 0.5:
+                continue
+            yield _case('bresp_from_json', j=enc(list(combo)), reg=REG, cls=_cls_json(U.ClientBaseError))
     for err in (_err_spec(E.InvalidRequestError, data='x'), _err_spec(U.UserError2002, data=None), _err_spec(E.JsonRpcError, 5, 'five'),
                 _err_spec(E.JsonRpcError, 0, '')):
         for ecls in (E.JsonRpcError, U.ClientBaseError):
@@ -448,6 +460,14 @@ def _sort_ids(x):
     return x
 
 
+def _drop_ids(x):
+    if isinstance(x, dict):
+        return {k: _drop_ids(v) for k, v in x.items() if k != 'ids'}
+    if isinstance(x, list):
+        return [_drop_ids(v) for v in x]
+    return x
+
+
 C06_OPS = {'req_from_json', 'resp_from_json', 'err_from_json', 'breq_from_json', 'bresp_from_json', 'breq_hist', 'bresp_hist'}
 C05_OPS = {'req_build', 'err_build', 'resp_build', 'breq_build', 'bresp_build', 'req_from_json', 'resp_from_json',
            'err_from_json', 'breq_from_json', 'bresp_from_json'}
@@ -466,7 +486,20 @@ def project(prop, c, out):
         if op not in C05_OPS:
             return None
         o = {k: v for k, v in out.items() if k not in ('text_equal', 'codec_ok')}
-        return _sort_ids(o)
+        return _drop_ids(o)            # the id *set* is bookkeeping for C06's duplicate check, not a wire field
+    return None
+
+
+def agree(prop, c, pm, pi):
+    """C05 constrains what survives the wire, not what is refused (that is C06): a `*_from_json` input either side
+    refuses, and a message only the implementation manages to build (its round trip is then judged by the oracle
+    alone), are outside the C05 comparison."""
+    if prop != 'C05':
+        return None
+    if c['op'].endswith('_from_json') and ('raised' in pm or 'raised' in pi):
+        return True
+    if c['op'].endswith('_build') and pm.get('built') != 'ok' and pi.get('built') == 'ok':
+        return True
     return None
 
 
@@ -607,6 +640,12 @@ def _c05_fields(prop, c, out):
         ok = ok and b['cls'] == want_cls(e_self['code'], base)
         return ok
 
+    def chk_err_spec(espec, w, b, base):
+        # the error a spec builds: explicit code / message or the class defaults
+        e_self = {'code': espec['code'] if espec['code'] is not None else espec['ecls']['code'],
+                  'message': espec['message'] if espec['message'] is not None else espec['ecls']['message'], 'data': espec['data']}
+        return isinstance(w, dict) and b is not None and chk_err(e_self, w, b['v'], base)
+
     if op == 'req_build':
         if not chk_req(c['req'], wire, back):
             f.append(Finding(prop, 'request-roundtrip', 'request fields or wire form changed by the round trip', c, out))
@@ -620,6 +659,8 @@ def _c05_fields(prop, c, out):
               and ('result' in wire) == (spec['result'] is not None)
               and (spec['result'] is None or enc(wire['result']) == spec['result']['v'])
               and back['id'] == spec['id'] and back['result'] == spec['result'] and (back['error'] is None) == (spec['error'] is None))
+        if ok and spec['error'] is not None:
+            ok = chk_err_spec(spec['error'], wire.get('error'), back['error'], c['cls']['name'])
         if not ok:
             f.append(Finding(prop, 'response-roundtrip', 'response fields or wire form changed by the round trip', c, out))
     elif op == 'breq_build':
@@ -632,9 +673,12 @@ def _c05_fields(prop, c, out):
     elif op == 'bresp_build':
         if c.get('error') is None:
             ok = isinstance(wire, list) and len(wire) == len(c['resps']) == len(back['responses']) and all(
-                b['id'] == s['id'] and b['result'] == s['result'] for s, b in zip(c['resps'], back['responses']))
+                b['id'] == s['id'] and b['result'] == s['result'] and (b['error'] is None) == (s['error'] is None)
+                and (s['error'] is None or chk_err_spec(s['error'], w.get('error'), b['error'], c['cls']['name']))
+                for s, w, b in zip(c['resps'], wire, back['responses']))
         else:
-            ok = isinstance(wire, dict) and wire.get('id', 0) is None and 'error' in wire and back['error'] is not None and back['responses'] == []
+            ok = (isinstance(wire, dict) and wire.get('id', 0) is None and 'error' in wire and back['error'] is not None and back['responses'] == []
+                  and chk_err_spec(c['error'], wire['error'], back['error'], c['cls']['name']))
         if not ok:
             f.append(Finding(prop, 'batch-response-roundtrip', 'batch response changed by the round trip', c, out))
     return f
